@@ -159,7 +159,7 @@ theorem closed_all_called_back {s : S} (h : Reach s) (hc : s.closed = true) :
   obtain ⟨_, q1, q2⟩ := w.closed_ok hc
   exact ⟨q1, q2, cb_exactly_once_when_drained h q1 q2⟩
 
-/-! ### non-vacuity: concrete runs -/
+/-! ### non-vacuity: concrete runs (evaluated by the kernel: `decide +kernel`, no extra axioms) -/
 
 /-- partial write, EAGAIN, EINTR, a write and a shutdown issued from inside the first callback
     (the reproducer of the callback-order defect repaired in stream.c 1234-1241), close at the end -/
@@ -171,30 +171,23 @@ def demo : S := runOps demoScript (initS false 0 0 false false false []) demoOps
 
 theorem demo_reach : Reach demo := ⟨demoScript, false, 0, 0, false, false, false, [], demoOps, rfl⟩
 
-set_option maxRecDepth 100000 in
-example : demo.cbs.map (fun c => (c.id, c.status)) = [(0, 0), (2, 0)] := by decide
-set_option maxRecDepth 100000 in
-example : demo.os = demo.submitted ∧ demo.os.length = 12 := by decide
-set_option maxRecDepth 100000 in
-example : demo.hardErr = false ∧ demo.shut = true ∧ demo.closed = true := by decide
+example : demo.cbs.map (fun c => (c.id, c.status)) = [(0, 0), (2, 0)] := by decide +kernel
+example : demo.os = demo.submitted ∧ demo.os.length = 12 := by decide +kernel
+example : demo.hardErr = false ∧ demo.shut = true ∧ demo.closed = true := by decide +kernel
 /-- order of callbacks in the trace: write 0, write 2 (submitted inside cb 0), then shutdown -/
-set_option maxRecDepth 100000 in
 example : (demo.trace.reverse.filter fun e => match e with
-    | .cb _ _ => true | .shutcb _ => true | _ => false) = [.cb 0 0, .cb 2 0, .shutcb 0] := by decide
+    | .cb _ _ => true | .shutcb _ => true | _ => false) = [.cb 0 0, .cb 2 0, .shutcb 0] := by decide +kernel
 /-- the try_write in between was refused -/
-set_option maxRecDepth 100000 in
-example : Ev.ret UV_EAGAIN ∈ demo.trace := by decide
+example : Ev.ret UV_EAGAIN ∈ demo.trace := by decide +kernel
 
 /-- a hard error: request 0 fails after 1 byte, request 1 is cancelled by close; size touched up -/
 def demo2 : S := runOps (fun _ => []) (initS true 0 0 false false false [.ok 1, .fail 32, .fail 11, .fail 11, .fail 11])
   ([.api (.write [3] true), .api (.write [2] false)] ++ loopIter ++ [.api .close] ++ loopIter)
-set_option maxRecDepth 100000 in
 example : demo2.cbs = [⟨0, -32, 1, 3⟩, ⟨1, UV_ECANCELED, 0, 2⟩] ∧ demo2.wqs = 0 ∧
-    demo2.fdSent = [(0, 0)] ∧ demo2.hardErr = true := by decide
+    demo2.fdSent = [(0, 0)] ∧ demo2.hardErr = true := by decide +kernel
 
 /-- zero-length requests do not block uv_try_write (no queued *data*): documented behaviour -/
-set_option maxRecDepth 100000 in
 example : (tryWrite2 (runOps (fun _ => []) (initS false 0 0 false false false [.fail 11, .ok 9])
-    [.api (.write [0] false)]) [2] false).2 = 2 := by decide
+    [.api (.write [0] false)]) [2] false).2 = 2 := by decide +kernel
 
 end UvModel.StreamW
